@@ -300,9 +300,14 @@ def runBuiltin (cfg : Cfg) : Nat → String → List Term → Gen
         -- results = makelist([get_value(template) for r in call(goal)])
         match callGoal cfg f g []
                 (fun w' => match resolve w'.b f tmpl with
-                   | some v => ({ w' with acc := match w'.acc with
-                                        | top :: rest => (top ++ [v]) :: rest
-                                        | [] => [[v]] }, none)
+                   | some v =>
+                       -- rename_variables([template])[0]: a copy whose unbound variables are new
+                       let (vs, n) := canonVars [v]
+                       let v' := (vs.headD v).rename (· + w'.next)
+                       ({ w' with next := w'.next + n,
+                                  acc := match w'.acc with
+                                        | top :: rest => (top ++ [v']) :: rest
+                                        | [] => [[v']] }, none)
                    | none => (w', some .oof))
                 { w with acc := [] :: w.acc } with
         | (w', none) =>
